@@ -367,6 +367,9 @@ def run(ctx):
                         S = v3["S"]
         if T == "ok-unfixed":
             n_unfixed += 1
+            # since fix d3a0236 the theorem that applies is mkTimes_equiv (fixed = true): the old variant is a broken tie
+            ctx.tie_broken("ctors-correspondence:*", "implementation matches only the unfixed mkTimes model (a sum among the "
+                           "factors is dropped): %s -> %s" % (args, res), case)
         if T == "ok-expanded":
             n_expanded += 1
         if W == "1":
